@@ -116,7 +116,13 @@ def _job(job) -> List[Dict[str, Any]]:
         inst("R10.1", "VIOLATED", case, f"predict_draw returns {short(res)}, not one number")
         return out
     # ---- R10.1
-    if res.sym is None:
+    cut = [ev for ev in oc.I.events if ev.kind == "fold" and "break" in ev.data["seq"].flags]
+    if cut:
+        ev = cut[0]
+        m_, _, qn = ev.func.partition("::")
+        inst("R10.1", "VIOLATED", f"symmetric by construction ({case})", "the enumeration of team pairs is cut short by a `break`: which pairs contribute depends on the order in which the teams are listed",
+             {}, m_, qn, getattr(ev.node, "lineno", 0))
+    elif res.sym is None:
         inst("R10.1", "UNDECIDED", f"symmetric by construction ({case})", "the returned value has no symbolic term (joined over paths or too large)")
     else:
         probs: List[str] = []
